@@ -203,6 +203,29 @@ class ModuleObj(types.ModuleType):
     __repr__ = __str__
 
 
+class Lazy:
+    """An item value that happens to be awaitable (a session handle, a future, a lazily loaded record). The engine may
+    print it (its __str__) but must not await it: what awaiting returns is held by no item and no string conversion."""
+
+    def __await__(self):  # noqa: ANN204
+        return iter(())  # not reached: the generator below is what a caller of __await__ would drive
+
+    def __str__(self) -> str:
+        return "lazy-handle"
+
+    __repr__ = __str__
+
+
+def _lazy() -> Any:
+    class L(Lazy):
+        def __await__(self):  # noqa: ANN204
+            if False:
+                yield None
+            return MARK + "-awaited-result"
+
+    return L()
+
+
 def make_objects() -> dict[str, Any]:
     mod = ModuleObj("m" + "odule")
     types.ModuleType.__setattr__(mod, "secret", MARK + "-module-attr")
@@ -215,6 +238,8 @@ def make_objects() -> dict[str, Any]:
         "callable": CallableObj(),
         "module": mod,
         "boundmethod": object.__getattribute__(plain, "method"),
+        "holder": {"lazy": _lazy(), "public": "PUBLIC", "n": 1, "first": _lazy(), "items": [_lazy()]},
+        "holderlist": [_lazy(), _lazy()],
         "dict": {"public": "PUBLIC", "n": 1},
         "list": ["l0", "l1"],
         "str": "text",
@@ -226,7 +251,7 @@ NAMES = [
     "secret", "prop", "method", "cls_secret", "_private", "token", "name", "items", "_d", "_shape",
     "__class__", "__dict__", "__init__", "__globals__", "__doc__", "__module__", "__subclasses__", "__mro__", "__name__", "__self__",
     "__func__", "__code__", "__closure__", "__builtins__", "__getattribute__", "__call__", "__bases__", "__wrapped__",
-    "public", "n", "first", "last", "size", "keys", "values", "get", "format", "upper", "real", "denominator", "__len__", "0", "-1",
+    "public", "n", "lazy", "first", "last", "size", "keys", "values", "get", "format", "upper", "real", "denominator", "__len__", "0", "-1",
 ]  # fmt: skip
 
 
@@ -278,6 +303,9 @@ def object_sites() -> list[str]:
          "{% render 'show' with o as p %}{% render 'show' for o as p %}{% include 'show' with o as p %}", "{% tablerow x in o %}{{ x }}{% endtablerow %}",
          "{{ 'x${o}y' }}", "{% case o %}{% when o %}same{% endcase %}", "{{ (o..o) }}", "{% include o %}"]  # fmt: skip
     s += ["{{ o | " + f + " }}" for f in fs]
+    # a keyword argument named like the objects the engine itself hands to filters must not replace them
+    s += ["{{ 'x' | escape: environment: o }}", "{{ objs | join: '-', environment: o }}", "{{ 'now' | date: '%Y', environment: o }}", "{{ 'hello' | t: context: o }}",
+          "{{ objs | map: i => i, context: o | size }}", "{{ 1 | currency: context: o }}", "{{ 'a' | gettext: context: o, environment: o }}", "{{ 'x' | strip_html: environment: o }}"]
     s += ["{{ objs | " + f + " | json }}" for f in ("map: 'public'", "sort", "join", "first", "compact", "uniq", "sum", "reverse | first")]
     return s
 
@@ -485,7 +513,7 @@ def _cases(tier: str) -> list[tuple]:
         for site in sites(nm):
             for shape in shapes:
                 for mode in ("sync", "async"):
-                    if mode == "async" and tier == "quick" and shape not in ("plain", "mapdrop", "classobj"):
+                    if mode == "async" and tier == "quick" and shape not in ("plain", "mapdrop", "classobj", "holder", "holderlist"):
                         continue
                     cases.append((site, nm, shape, mode))
     for site in object_sites():
